@@ -19,3 +19,19 @@ def c01_damaged_while_initialized(case, what):
     if what.startswith("disagreement:"):
         return False
     return False
+
+
+@known_predicate
+def c01_write_damage_while_initialized(case, what):
+    """C01-F3: parse() raises a sqlite3.DatabaseError (IntegrityError) at the cache *write* because the `models`
+    table was replaced — while this process held the database initialised — by one on which the lookup works but the
+    insert does not (additional NOT NULL column).  Recognised from the history alone: the failing operation is a
+    parse, and at that time the last thing done to the table since the process's last (re)validation was such a
+    replacement.  Any other exception, a wrong tree, or a DatabaseError in another state is not this finding."""
+    from harness.props.c01 import write_damaged_at
+    if "ops" not in case or "upto" not in case or what != "parse raised db":
+        return False
+    ops, upto = case["ops"], case["upto"]
+    if upto < 1 or upto > len(ops) or ops[upto - 1][0] != "parse":
+        return False
+    return write_damaged_at(ops, upto)
